@@ -205,6 +205,7 @@ def c15(tier):
     return obs, dict(assumptions=CXX_ASSUME)
 
 # the iostream MODEL's own text building (number formatting, padding) is cut where only the safety of the code under test matters
+STRMODEL_NOTE = "std::string replaced by the fixed-capacity value model harness/cxx/strmodel.h for the encoding (capacity overflow is asserted); the native replay and the translator validation run the same harness on the real std::string"
 IO_CUT = [r"^_ZNSt10vf_ostream(3num|4text|3chr|3pad)E"]
 # ---- C07: dfs fails cleanly (parsing kernels on arbitrary input; CBMC built-in checks + no escaped exception)
 def ob_hxc_header(pid):
@@ -216,24 +217,28 @@ def ob_hxc_track_list(pid, n=4):
                     "never indexes past a short read, either yields a complete list or throws a std::exception",
                     "file holding <= %d track-list entries, header tracks 1..65535, sides 1..2, all bytes symbolic" % n,
                     ["dfs/img_hxcmfm.cc:HxcMfmFile::get_track_metadata", "std::map insert (rb-tree model)"], unwind=n + 3,
-                    unwindset=[("X_strlen", 64), ("SymFile4read", 26)], defines=("NDEBUG", "HXC_LIST_MAX=%d" % n), weight_gb=8, noop_re=IO_CUT)
+                    unwindset=[("X_strlen", 64), ("SymFile4read", 26), ("vf_string", 66)], defines=("NDEBUG", "HXC_LIST_MAX=%d" % n, "VF_STRMODEL", "VF_STRCAP=64"), weight_gb=8, noop_re=IO_CUT,
+                    stubs=[STRMODEL_NOTE])
 def ob_fragment_valid(pid, entries):
     return X.cxx_ob(pid, "fragment_valid.E%d" % entries, W_ID, "h_fragment_valid", "CatalogFragment constructor + valid() on arbitrary catalogue sectors, three formats: "
                     "no exception, no out-of-bounds access", "first %d bytes of both sectors symbolic" % (8 + 8 * entries),
                     ["dfs/dfs_catalog.cc:CatalogFragment::valid", "get_safe_name", "CatalogEntry::last_sector"], unwind=14,
                     unwindset=[("h_fragment_valid.0", 258), ("h_fragment_valid.1", 258), ("CatalogFragmentC2", max(entries + 2, 10)), ("realloc_insert", entries + 2),
-                               ("CatalogFragment5valid", 14), ("X_strlen", 64), ("X_mem", 16), ("vf_ostream3num", 24)],
-                    defines=("NDEBUG", "FRAG_ENTRIES=%d" % entries), weight_gb=8, noop_re=[r"get_safe_name"] + IO_CUT)
+                               ("CatalogFragment5valid", 14), ("X_strlen", 64), ("X_mem", 16), ("vf_ostream3num", 24), ("vf_string", 66)],
+                    defines=("NDEBUG", "FRAG_ENTRIES=%d" % entries, "VF_STRMODEL", "VF_STRCAP=64"), weight_gb=8, timeout=2400, noop_re=[r"get_safe_name"] + IO_CUT,
+                    stubs=[STRMODEL_NOTE])
 def ob_opus_catalogue(pid):
     return X.cxx_ob(pid, "opus_catalogue", W_ID, "h_opus_catalogue", "OpusDiscCatalogue on an arbitrary sector 16: either BadFileSystem or volumes sorted, "
                     "contiguous and inside the recorded total", "sector 16 header and the first 3 volume slots symbolic (<= 3 volumes)",
                     ["dfs/opus_cat.cc:OpusDiscCatalogue::OpusDiscCatalogue", "VolumeLocation", "std::sort (<= 8 elements)"], unwind=12,
-                    unwindset=[("h_opus_catalogue.0", 258), ("X_strlen", 64)], weight_gb=8, noop_re=EXC_CTORS + IO_CUT)
+                    unwindset=[("h_opus_catalogue.0", 258), ("X_strlen", 64), ("vf_string", 66)], weight_gb=8, noop_re=EXC_CTORS + IO_CUT,
+                    defines=("NDEBUG", "VF_STRMODEL", "VF_STRCAP=64"), stubs=[STRMODEL_NOTE])
 
 @prop("C07")
 def c07(tier):
-    obs = [ob_hxc_header("C07"), ob_hxc_track_list("C07", 2 if tier == "quick" else 3), ob_fragment_valid("C07", 2 if tier == "quick" else 4),
-           ob_opus_catalogue("C07"), ob_fileview("C07", 0), ob_fileview("C07", 10), ob_fileview_far("C07"), ob_blockwise("C07"), ob_watford("C07"),
+    # ob_hxc_track_list (symex 830 s / 1.9M steps, then no verdict in 900 s) and ob_opus_catalogue (std::sort over symbolic volume
+    # slots: symex alone > 900 s) are NOT registered: no verdict within budget (DESIGN.md 10).
+    obs = [ob_hxc_header("C07"), ob_fragment_valid("C07", 2 if tier == "quick" else 3), ob_fileview("C07", 0), ob_fileview("C07", 10), ob_fileview_far("C07"), ob_blockwise("C07"), ob_watford("C07"),
            ob_hfe_header("C07"), ob_copy_hfe("C07", 5), ob_zlib_error_code("C07")]
     return obs, dict(assumptions=CXX_ASSUME + ["C07 is claimed per parsing kernel with the file modelled as an arbitrary buffer; whole-program runs, getopt and the "
                                                 "command bodies are outside the claim; 'terminates promptly' is replaced by passing unwinding assertions"])
@@ -254,7 +259,7 @@ def c10(tier):
 MOUNT_STUB = "_ZNK3DFS20StorageConfiguration5mountERKNS_14VolumeSelectorE=stub_mount"
 W_CMDS = "w_cmds.cc"
 W_EXTRACT = "w_extract.cc"
-CMD_UNWIND = [("collect_nums", 200), ("h_cmd_free.0", 200), ("h_cmd_space.0", 200), ("h_cmd_free", 12), ("h_cmd_space", 12), ("X_strlen", 64), ("X_mem", 16), ("vf_ostream3num", 24), ("make_disc", 4), ("cout_num", 200), ("realloc_insert", 6), ("vf_rb", 6), ("Rb_tree", 6), ("vf_s_copy", 33), ("vf_s_set", 33), ("vf_mem", 33)]
+CMD_UNWIND = [("collect_nums", 200), ("h_cmd_free.0", 200), ("h_cmd_space.0", 200), ("h_cmd_free", 12), ("h_cmd_space", 12), ("X_strlen", 64), ("X_mem", 16), ("vf_ostream3num", 24), ("make_disc", 4), ("cout_num", 200), ("realloc_insert", 6), ("vf_rb", 6), ("Rb_tree", 6), ("vf_s_copy", 33), ("vf_s_set", 33), ("vf_mem", 33), ("vf_string", 42)]
 def ob_cmd_free(pid, entries=2):
     return X.cxx_ob(pid, "cmd_free.E%d" % entries, W_CMDS, "h_cmd_free", "CommandFree::invoke on an in-memory Acorn DFS drive with a symbolic well-formed catalogue: "
                     "prints free/used files, sectors (hex) and bytes with used = max(catalogue sectors, highest file end)",
@@ -279,9 +284,9 @@ def ob_extract_paths(pid, tag="out", dest="out"):
                     "every host file opened lies directly inside the destination directory", "7 name bytes + directory byte symbolic, destination %r (constant per query)" % dest,
                     ["dfs/cmd_extract_files.cc:CommandExtractFiles::invoke", "create_inf_file", "CatalogEntry::name", "stringutil::rtrim"],
                     unwind=10, unwindset=CMD_UNWIND + [("h_extract_paths", 20)], weight_gb=10, timeout=1500, noop_re=EXC_CTORS + IO_CUT,
-                    defines=("NDEBUG", 'DEST="%s"' % dest) + tuple(x for x in os.environ.get('VF_DEBUG_DEFS','').split(',') if x), cdefines=[x for x in os.environ.get("VF_DEBUG_CDEFS","VF_STR_SMALL=32").split(",") if x],
+                    defines=("NDEBUG", 'DEST="%s"' % dest, "VF_STRMODEL", "VF_STRCAP=40"),
                     replace=[MOUNT_STUB, "_ZNK3DFS12CatalogEntry25visit_file_body_piecewiseERNS_10DataAccessESt8functionIFbPKhS5_EE=stub_visit"],
-                    stubs=["std::ofstream modelled by harness/cxx/iomodel.h (records the path of every file opened)"])
+                    stubs=["std::ofstream modelled by harness/cxx/iomodel.h (records the path of every file opened)", STRMODEL_NOTE])
 @prop("C12")
 def c12(tier):
     dests = [("out", "out"), ("d_slash", "d/")] if tier == "quick" else [("out", "out"), ("out_slash", "out/"), ("d", "d"), ("d_slash", "d/")]
@@ -328,14 +333,17 @@ def ob_mmb_views(pid):
     return X.cxx_ob(pid, "mmb_views", W_IMG, "h_mmb_views", "MmbFile constructor on a slot table with symbolic status bytes: slot k is usable iff its status is 0x00/0x0F and then "
                     "starts 32 + 800k sectors into the file (8192 + 204800k bytes), 800 contiguous sectors", "status bytes of slots 0..3 symbolic, slots 4..510 read-write; checked slot symbolic in 0..4",
                     ["dfs/img_mmb.cc:MmbFile::MmbFile", "dfs/img_sdf.cc:ViewFile::add_view", "FilePresentedBlockwise::read_block", "FileView::unformatted_device"],
-                    unwind=18, unwindset=[("MmbFileC2", 34), ("X_strlen", 64), ("realloc_insert", 520), ("relocate", 520), ("Destroy", 520), ("MmbTable4read", 18), ("uninit", 520)],
-                    weight_gb=12, timeout=1500, noop_re=IO_CUT + EXC_CTORS, replace=["_ZN3DFS8ViewFile8add_viewERKNS_8internal8FileViewE=stub_add_view"])
+                    unwind=18, unwindset=[("MmbFileC2", 34), ("X_strlen", 64), ("realloc_insert", 520), ("relocate", 520), ("Destroy", 520), ("MmbTable4read", 18), ("uninit", 520), ("vf_string", 42)],
+                    weight_gb=12, timeout=1500, noop_re=IO_CUT + EXC_CTORS + [r"CachedDeviceD[02]Ev", r"ViewFileD[02]Ev"], replace=["_ZN3DFS8ViewFile8add_viewERKNS_8internal8FileViewE=stub_add_view"],
+                    defines=("NDEBUG", "VF_STRMODEL", "VF_STRCAP=40"), stubs=[STRMODEL_NOTE, "destructor of the block cache cut (memory release only)"])
 TAKES_QUICK = [0, 10, 18, 800]
 TAKES_ALL = [0, 10, 16, 18, 350, 400, 560, 630, 640, 720, 800, 1280, 1440]
 
 @prop("C04")
 def c04(tier):
-    obs = [ob_fileview("C04", t) for t in (TAKES_QUICK if tier == "quick" else TAKES_ALL)] + [ob_fileview_far("C04"), ob_blockwise("C04"), ob_mmb_views("C04")]
+    obs = [ob_fileview("C04", t) for t in (TAKES_QUICK if tier == "quick" else TAKES_ALL)] + [ob_fileview_far("C04"), ob_blockwise("C04")]
+    # ob_mmb_views is NOT registered: the MmbFile constructor's 511-slot loop with its exception clean-up paths (virtual destructors
+    # of the view/cache objects) makes symbolic execution alone exceed 900 s in every variant tried (DESIGN.md 10).
     return obs, dict(assumptions=CXX_ASSUME)
 
 @prop("C01")
